@@ -447,7 +447,7 @@ Section Model.
         match n_kind clon with
         | KClosure csum _ _ =>
             match csum with
-            | None => Crash CrNilDeref
+            | None => Ok part1                     (* closure without summary: not reachable, ignored (fix 5a8979c) *)
             | Some cs =>
                 match fn_of cs, fn_of (n_fn clon) with
                 | Some csr, Some clor =>
@@ -479,13 +479,35 @@ Section Model.
     | None => Crash CrNoMatchingBoundVar
     end).
 
+  (** the contextual branch is taken only if there is a call stack and the top of the closure trace creates the closure
+      the free variable belongs to (fix ba25c2c): the closure being left and the rest of the closure trace *)
+  Definition freevar_context (cur : vnode) (n : node) : option (id * list id) :=
+    match v_trace cur, v_ctrace cur with
+    | _ :: _, cl :: crest =>
+        match node_of cl with
+        | Some cln =>
+            match n_kind cln with
+            | KClosure (Some csum) _ _ => if Pos.eqb csum (n_fn n) then Some (cl, crest) else None
+            | _ => None
+            end
+        | None => None
+        end
+    | _, _ => None
+    end.
+
+  Definition freevar_nocontext (s : N) (cur : vnode) (fr : fnrec) (idx : N) : res (list cand) :=
+    match f_referring fr with
+    | [] => Crash CrNoReferring
+    | _ => concat_res (map (freevar_nocontext_at cur idx) (ord s 2 _ (f_referring fr)))
+    end.
+
   Definition expand_freevar (s : N) (cur : vnode) (n : node) (fr : fnrec) (idx : N) : res (list cand) :=
     bind (prev_node cur) (fun op =>
     let ins := match op with None => true | Some pn => negb (Pos.eqb (n_fn pn) (n_fn n)) end in
     if ins then Ok (out_cands s 0 n None (v_trace cur) (v_ctrace cur) (v_kind cur) (v_tinfo cur) all_edges)
     else
-      match v_ctrace cur with
-      | cl :: crest =>
+      match freevar_context cur n with
+      | Some (cl, crest) =>
           bind (closure_bvs cl) (fun bvs =>
           match bvs with
           | [] => Crash CrNoBoundVars
@@ -494,11 +516,7 @@ Section Model.
                  | None => Crash CrNoMatchingBoundVar
                  end
           end)
-      | [] =>
-          match f_referring fr with
-          | [] => Crash CrNoReferring
-          | _ => concat_res (map (freevar_nocontext_at cur idx) (ord s 2 _ (f_referring fr)))
-          end
+      | None => freevar_nocontext s cur fr idx
       end).
 
   (* ---- *df.AccessGlobalNode *)
@@ -515,7 +533,7 @@ Section Model.
     if c_skip_bl cfg then Ok []
     else
       match dest with
-      | None => Crash CrNilDeref
+      | None => Ok []                              (* closure without summary: not reachable, ignored (fix 5a8979c) *)
       | Some d =>
           match fn_of d with
           | None => Crash CrDangling
